@@ -24,7 +24,7 @@ EXPLANATION = (
     "where it stopped (chunks compose, whether the register inversion lives in the core or in the entry "
     "points), and an empty chunk changes nothing; (5) the page-header parser sets has_crc to a constant "
     "true in the arm that reads field 4, whatever the stored value. A page whose load failed is retried at the same position, not stepped over (carquet_read_next_page "
-    "executed abstractly over page states x a failing load; rule shared with C02.2). The writer side is decided on the finaliser's abstract execution (48 configurations): a CRC value is an opaque term naming the byte ranges folded into it, in order, by carquet_crc32 or chained carquet_crc32_update calls, and PageHeader.crc must cover exactly the stored payload in stored order. (9) damaged compressed bodies with verification off: the built-in block decompressors on the invalid forms of the C10 format grid - refused, and no byte outside the stream or the destination touched. Decides these clauses, not equality "
+    "executed abstractly over page states x a failing load; rule shared with C02.2). The writer side is decided on the finaliser's abstract execution (48 configurations): a CRC value is an opaque term naming the byte ranges folded into it, in order, by carquet_crc32 or chained carquet_crc32_update calls, and PageHeader.crc must cover exactly the stored payload in stored order. (9) damaged compressed bodies with verification off: the built-in block decompressors on the invalid forms of the C10 format grid - refused, and no byte outside the stream or the destination touched. (10) the only store to the verify_checksums member in the library is the default written by the options initialiser into the object it was handed; no function switches a reader's live option (off around a skip, say), which would leave the pages loaded in between unverified. Decides these clauses, not equality "
     "with zlib for all inputs nor the CRC's error-detection algebra.")
 
 PR = "src/reader/page_reader.c"
@@ -51,6 +51,8 @@ def run(ctx):
     from ..rules import blockfmt
     nbf = blockfmt.check(ctx)
     ctx.floor("C14 format-built streams through the block decompressors", nbf, 80)
+    ctx.clause("C14.10 the caller's verify_checksums choice is never overridden: the member is stored only by the options initialiser")
+    ctx.floor("C14 stores to verify_checksums", _option_writers(ctx), 1)
     ctx.clause("C14.8 with verification off a damaged level-length prefix is still handled inside the page (rule shared with C04.12)")
     from ..rules import pageread
     pageread.check_level_extents(ctx)
@@ -428,3 +430,30 @@ def _crc_presence(ctx):
         ctx.ob("R6.crc-gate", "crc-presence|%s:parquet_parse_page_header" % PT, P.where(a),
                "has_crc is set to true (a constant) together with the read of field 4, independently of the stored value",
                const_true and same_arm, "" if const_true else "has_crc = %s" % src(a.c[1])[:40])
+
+
+def _option_writers(ctx):
+    """Who stores to the option that decides whether page checksums are verified. It is the caller's choice, taken once when the
+    reader is opened: the only store in the library is the default in the options initialiser. A function that switches it
+    (off for a while, back on later) makes every page loaded in between unverified although the caller asked for verification."""
+    from ..util import is_assign
+    P = ctx.P
+    n = 0
+    for fn in P.lib_functions():
+        if fn.body is None or not P.rel(fn.file).startswith("src/"):
+            continue
+        for x in fn.body.walk():
+            if not (is_assign(x) or (x.k == "UnaryOperator" and x.op in ("++", "--"))):
+                continue
+            t = x.c[0].strip()
+            if t.k != "MemberExpr" or t.name != "verify_checksums":
+                continue
+            n += 1
+            base = t.c[0].strip_casts() if t.c else None
+            # the options object being initialised is the function's own parameter (carquet_reader_options_init and the like)
+            own = base is not None and base.k == "DeclRefExpr" and base.get("dk") == "param" and "options" in (base.t or "")
+            ctx.ob("R7.who-may-write", "option-writer|%s:%s|verify_checksums" % (P.rel(fn.file), fn.name), P.where(x),
+                   "verify_checksums is stored only into an options object handed in for initialisation, never into a reader's live options",
+                   own, "" if own else "`%s` in %s: pages loaded while the caller's choice is overridden are not verified" % (src(x)[:60], fn.name))
+    # memcpy / struct assignment of a whole options object into the reader is how the caller's choice arrives; that is not a store to the member
+    return n
